@@ -1,0 +1,10 @@
+//go:build verif
+
+package frugal
+
+// Pure re-exports for the verification harness of the FContext op id counter
+// (build tag `verif` only). No logic lives here.
+
+// VerifNextOpIDCounter returns the address of the process-wide op id counter,
+// so the harness can start an op sequence from a chosen counter value.
+func VerifNextOpIDCounter() *uint64 { return &nextOpID }
